@@ -390,6 +390,10 @@ def u_space(rec):
         exp_d = [p[1] for p in positions if m[p]]
         ok = list(sp.sparse_vars) == ["s", "d"] and list(np.asarray(sp.sparse_vars["s"])) == exp_s and list(np.asarray(sp.sparse_vars["d"])) == exp_d
         ok = ok and list(sp.dense_vars) == ["h", "w"] and list(np.asarray(sp.dense_vars["h"])) == [0, 1, 2]
+        feas_c = m.any(axis=1)
+        exp_ix = np.full(2, -1)
+        exp_ix[feas_c] = np.arange(feas_c.sum())
+        ok = ok and np.asarray(ix["state_indexer"]).shape == (2,) and (np.asarray(ix["state_indexer"]) == exp_ix).all() and int(sg["num_segments"]) == int(feas_c.sum())
         if ok:
             return None
         return {"what": "state-choice space differs from the passing combinations / full grids", "observed": {k: np.asarray(v).tolist() for k, v in {**sp.sparse_vars, **sp.dense_vars}.items()}, "expected": {"s": exp_s, "d": exp_d, "h": [0, 1, 2]}}
@@ -403,7 +407,11 @@ def u_space(rec):
     feas = [sj.b_or(mt[(s, 0)], mt[(s, 1)]) for s in range(2)]
     fr, nf = ranks(feas)
     si = indexers["state_indexer"]
-    for s in range(2):
-        rec.prove(f"state_indexer[{s}]", sj._cmp("eq", si.data[s], sj.ite(feas[s], fr[s], -1)), [], replay=replay)
+    rec.prove("state_indexer has one axis per restricted state", tuple(si.data.shape) == (2,), [], replay=replay)
+    if tuple(si.data.shape) == (2,):
+        for s in range(2):
+            rec.prove(f"state_indexer[{s}]", sj._cmp("eq", si.data[s], sj.ite(feas[s], fr[s], -1)), [], replay=replay)
+    nseg = segments["num_segments"]
+    rec.prove("num_segments == number of restricted states with a passing choice", sj._cmp("eq", nseg.term if isinstance(nseg, symnp.SymDim) else nseg, nf), [], replay=replay)
     rec.prove("space_info axis names", info.axis_names == ["state_index", "h", "w"], [], replay=replay)
     return {"bounds": {"mask_shape": [2, 2]}, "symbols": 4}
